@@ -95,18 +95,23 @@ def gen_member(rng, idx):
     # perturbations: single edits that may make the call inconsistent or under-determined
     r = rng.random()
     if r < 0.45 and tag == "consistent":
-        kind = rng.choice(["dim+1", "dim-1", "dim*2", "drop-kw", "contradict-kw", "rank+", "rank-", "tuple-len", "dim*3"])
+        kind = rng.choice(["dim+1", "dim-1", "dim*2", "drop-kw", "contradict-kw", "rank+", "rank-", "tuple-len", "dim*3", "dim->0", "kw->0"])
         ks = [i for i, s in enumerate(shapes) if s is not None and len(s) > 0]
         if kind.startswith("dim") and ks:
             i = rng.choice(ks)
             s = list(shapes[i])
             j = rng.randrange(len(s))
-            s[j] = {"dim+1": s[j] + 1, "dim-1": s[j] - 1, "dim*2": s[j] * 2, "dim*3": s[j] * 3}[kind]
-            if s[j] >= 1:
+            s[j] = {"dim+1": s[j] + 1, "dim-1": s[j] - 1, "dim*2": s[j] * 2, "dim*3": s[j] * 3, "dim->0": 0}[kind]
+            if s[j] >= 1 or kind == "dim->0":
                 shapes[i] = tuple(s)
                 tag = kind
         elif kind == "drop-kw" and kw:
             kw.pop(rng.choice(sorted(kw)))
+            tag = kind
+        elif kind == "kw->0" and kw:
+            k = rng.choice(sorted(kw))
+            v = kw[k]
+            kw[k] = tuple(0 if i == 0 else x for i, x in enumerate(v)) if isinstance(v, tuple) and v else 0
             tag = kind
         elif kind == "contradict-kw" and kw:
             k = rng.choice(sorted(kw))
@@ -708,10 +713,10 @@ def template_members():
                     kw0 = {n: sz[n] for n in given}
                     edits = [("none", None, None)]
                     for n in given:
-                        edits += [("kw+1", n, sz[n] + 1), ("kw*3+7", n, sz[n] * 3 + 7)]
+                        edits += [("kw+1", n, sz[n] + 1), ("kw*3+7", n, sz[n] * 3 + 7), ("kw->0", n, 0)]
                     for i, s_ in enumerate(shapes0):
                         for j, d in enumerate(s_):
-                            edits += [("dim+1", (i, j), d + 1), ("dim*2", (i, j), d * 2)] + ([("dim->1", (i, j), 1)] if d != 1 else [])
+                            edits += [("dim+1", (i, j), d + 1), ("dim*2", (i, j), d * 2), ("dim->0", (i, j), 0)] + ([("dim->1", (i, j), 1)] if d != 1 else [])
                     for tag, where, val in edits:
                         kw, shapes = dict(kw0), list(shapes0)
                         if tag.startswith("kw"):
